@@ -22,7 +22,7 @@ RULE = (
 )
 TIERS = {"quick": {"shards": 8, "n": 16, "budget_s": 230}, "thorough": {"shards": 16, "n": 600, "budget_s": 2700}}
 FLOOR = {"quick": 40, "thorough": 2000}
-REQUIRED_LABELS = {"quick": ["module-with-unexported-helper", "dry-run", "real-run", "out:populated", "out:absent", "out:empty", "recursive", "blacklist", "sqlalchemy-submodule"], "thorough": []}
+REQUIRED_LABELS = {"quick": ["module-with-unexported-helper", "dry-run", "real-run", "out:populated", "out:absent", "out:empty", "recursive", "blacklist", "sqlalchemy-submodule", "init-reexports-subpackage"], "thorough": []}
 ASSUMPTIONS = [
     "generated trees for black/whitelist cases do not re-export across the list boundary; the clause is checked at the granularity the tool implements (package FQN)",
     "P31: emit kinds pydantic / json_schema / sqlalchemy raise TypeError; for them only 'stays inside the output dir / source untouched / dry-run writes nothing' is checked, which holds whether or not the call raises",
@@ -66,7 +66,9 @@ def package_tree(draw):
             if draw(st.integers(0, 2)) == 0:
                 helpers[rel] = cls_names(1)  # defined in the module but NOT exported through __all__ / __init__
         path += "sub%d/" % lv
-    return {"modules": mods, "helpers": helpers, "irs": irs, "levels": levels}
+    # a package __init__ may also re-export what its sub-package's __init__ exports (`from pkg.sub0 import X`)
+    reexport = draw(st.booleans()) if levels > 1 else False
+    return {"modules": mods, "helpers": helpers, "irs": irs, "levels": levels, "reexport": reexport}
 
 
 @st.composite
@@ -104,10 +106,16 @@ def write_tree(root, pkg, tree):
         parts = d.split("/") if d else []
         for i in range(len(parts) + 1):
             alldirs.add("/".join(parts[:i]))
+    own = {d: [c for _m, cs in by_dir.get(d, []) for c in cs] for d in alldirs}
     for d in sorted(alldirs):
         os.makedirs(os.path.join(base, d), exist_ok=True)
         fq = ".".join([pkg] + (d.split("/") if d else []))
-        lines, exported = [], []
+        lines, exported, re_lines, re_exported = [], [], [], []
+        if tree.get("reexport"):
+            for child in sorted(c for c in alldirs if c and c.rpartition("/")[0] == d and c != d):
+                if own.get(child):
+                    re_lines.append("from %s.%s import %s" % (fq, child.rpartition("/")[2], ", ".join(own[child])))
+                    re_exported += own[child]
         for m, classes in by_dir.get(d, []):
             lines.append("from %s.%s import %s" % (fq, m, ", ".join(classes)))
             exported += classes
@@ -119,6 +127,8 @@ def write_tree(root, pkg, tree):
                     parts += [src, ""]
                 parts.append("__all__ = %r" % classes)
                 f.write("\n".join(parts) + "\n")
+        lines += re_lines
+        exported += re_exported
         lines.append("__all__ = %r" % exported)
         with open(os.path.join(base, d, "__init__.py"), "w") as f:
             f.write("\n".join(lines) + "\n")
@@ -166,6 +176,8 @@ def one(r, case):
         r.label("sqlalchemy-submodule")
     if case["tree"].get("helpers"):
         r.label("module-with-unexported-helper")
+    if case["tree"].get("reexport"):
+        r.label("init-reexports-subpackage")
     r.label("emit-name:list" if case.get("emit_as_list") else "emit-name:str")
     _counter[0] += 1
     root = tempfile.mkdtemp(prefix="c20_", dir="/dev/shm" if os.path.isdir("/dev/shm") else None)
